@@ -261,6 +261,11 @@ def run_api(ctx, case, rng):
     bank, fmt, enc = case['bank'], case['fmt'], case['enc']
     lig = case.get('lig', False)
     rules, lex = reference(bank)
+    if fmt != 'lopar' and zlib_pick(case, 12) == 5:
+        # a grammar without lexicon: the lexicon file is written all the
+        # same, and says so (it is empty)
+        lex = Counter()
+        ctx.stratum('grammar written with an empty lexicon')
     grammar = to_repo_grammar(rules)
     if case.get('mode') is not None:
         mode, reo = case['mode']
@@ -430,7 +435,13 @@ def run_cli(ctx, case, rng):
     if sfmt != 'export' or senc != 'utf-8' or case.get('sgz'):
         ctx.stratum('cli source other than plain utf-8 export')
     if lig:
-        args += ['--dest-opts', 'lex_in_grammar']
+        # a flag may be given with a value (key:value is the documented
+        # form of an option)
+        form = ('lex_in_grammar', 'lex_in_grammar', 'lex_in_grammar:1',
+                'lex_in_grammar:true')[zlib_pick(case, 4)]
+        args += ['--dest-opts', form]
+        if ':' in form:
+            ctx.stratum('cli: lex_in_grammar given with a value')
     if zlib_pick(case, 3) == 1:
         args += ['--verbose']
         ctx.stratum('cli with --verbose')
@@ -630,6 +641,13 @@ def shard(ctx):
         if rng.random() < 0.3:
             case['sopts'] = [rng.choice(['continuous', 'brackets_firstid:7'])]
         r = rng.random()
+        if r > 0.85:
+            # Markovization parameters next to the grammar type `treebank`:
+            # the treebank grammar is the unbinarized one
+            case['gramtype'] = 'treebank'
+            case['markov'] = rng.choice([['v:1', 'h:1'], ['v:2'], ['nofanout'],
+                                         ['h:0', 'nofanout']])
+            ctx.stratum('cli: treebank grammar with --markov')
         if r < 0.5:
             case['gramtype'] = rng.choice(['leftright', 'optimal'])
             if rng.random() < 0.7:
